@@ -382,6 +382,10 @@ func (repo *GoGitRepo) FetchRefs(remote string, prefixes ...string) (string, err
 
 	buf := bytes.NewBuffer(nil)
 
+	if err := repo.unpackRemoteRefs(remote, prefixes...); err != nil {
+		return "", err
+	}
+
 	err := repo.r.Fetch(&gogit.FetchOptions{
 		RemoteName: remote,
 		RefSpecs:   refSpecs,
@@ -397,6 +401,26 @@ func (repo *GoGitRepo) FetchRefs(remote string, prefixes ...string) (string, err
 	}
 
 	return buf.String(), nil
+}
+
+// unpackRemoteRefs rewrites the remote-tracking references of the given namespaces as loose references.
+// When fetch and push update such a reference, go-git checks its old value in a way that only works
+// for a loose reference: if it only lives in packed-refs (after a git gc or pack-refs), go-git creates
+// an empty reference file, fails with "reference has changed concurrently" and leaves that broken file
+// behind, which stock git then refuses to work with.
+func (repo *GoGitRepo) unpackRemoteRefs(remote string, prefixes ...string) error {
+	iter, err := repo.r.References()
+	if err != nil {
+		return err
+	}
+	return iter.ForEach(func(ref *plumbing.Reference) error {
+		for _, prefix := range prefixes {
+			if strings.HasPrefix(ref.Name().String(), fmt.Sprintf("refs/remotes/%s/%s/", remote, prefix)) {
+				return repo.r.Storer.SetReference(ref)
+			}
+		}
+		return nil
+	})
 }
 
 // PushRefs push git refs matching a directory prefix to a remote
@@ -433,6 +457,10 @@ func (repo *GoGitRepo) PushRefs(remote string, prefixes ...string) (string, erro
 		}
 
 		refSpecs[i] = config.RefSpec(refspec)
+	}
+
+	if err := repo.unpackRemoteRefs(remote, prefixes...); err != nil {
+		return "", err
 	}
 
 	buf := bytes.NewBuffer(nil)
